@@ -43,10 +43,13 @@ def main():
     import shutil
     gen = os.path.join(VERIF, 'lean', 'Lcapy', 'Generated')
     bak = '/tmp/seedrun_generated_backup_%d' % os.getpid()
-    shutil.rmtree(bak, ignore_errors=True)
-    shutil.copytree(gen, bak)
     rows = []
     for sid in ids:
+        # snapshot of the regenerated models taken at the start of THIS seed (other engineers' checks may
+        # legitimately regenerate these files while a long invocation is running; an invocation-wide snapshot
+        # would put stale files back)
+        shutil.rmtree(bak, ignore_errors=True)
+        shutil.copytree(gen, bak)
         d = os.path.join(SEEDED, sid)
         meta = json.load(open(os.path.join(d, 'meta.json')))
         prop = meta['property']
